@@ -9,7 +9,7 @@ use serde_json::{Value, json};
 use std::collections::BTreeSet;
 use std::path::{Path, PathBuf};
 
-pub const WORDS: &[&str] = &["tset", "thw", "naïvité", "O'Brienx", "ŁÓDŹx"];
+pub const WORDS: &[&str] = &["tset", "thw", "naïvité", "O'Brienx", "ŁÓDŹx", "Tset"];
 
 #[derive(Clone, Debug)]
 pub enum HOp {
@@ -21,7 +21,7 @@ pub enum HOp {
 }
 
 fn hops() -> Vec<HOp> {
-    let mut v = vec![HOp::Open(0, 4), HOp::Open(1, 5), HOp::Change(0, 5), HOp::Restart];
+    let mut v = vec![HOp::Open(0, 7), HOp::Open(1, 5), HOp::Change(0, 5), HOp::Restart];
     for w in WORDS {
         v.push(HOp::AddUser(0, w));
         v.push(HOp::AddFile(0, w));
@@ -80,6 +80,8 @@ fn run_history(seq: &[HOp], crash: bool) -> Result<Outcome, String> {
     let mut sess = Session::new("c07")?;
     let mut out = Outcome { viols: vec![], steps: 0, crash_points: 0, torn: 0, applicable: true };
     let scratch = sess.world.root.join("recovered.txt");
+    let mut asis_user: BTreeSet<String> = BTreeSet::new();
+    let mut asis_file: Vec<BTreeSet<String>> = vec![BTreeSet::new(), BTreeSet::new()];
     for (si, h) in seq.iter().enumerate() {
         out.steps += 1;
         match to_op(h) {
@@ -92,9 +94,13 @@ fn run_history(seq: &[HOp], crash: bool) -> Result<Outcome, String> {
                 // acknowledged words before this operation
                 let ack_user = sess.client.user_words.clone();
                 let ack_file: Vec<BTreeSet<String>> = sess.client.file_words.clone();
+                let _ = (&ack_user, &ack_file);
+                // acknowledged = what the dictionary file held before this command (as-is model,
+                // so that finding F13 is not mistaken for a crash loss); a word that differs from the
+                // one in flight only by case is replaced by it
                 let target: Option<(PathBuf, BTreeSet<String>, String)> = match &op {
-                    Op::AddUser(_, w) => Some((sess.world.user_dict.clone(), ack_user.clone(), w.to_string())),
-                    Op::AddFile(d, w) => Some((sess.file_dict_path(*d), ack_file[*d].clone(), w.to_string())),
+                    Op::AddUser(_, w) => Some((sess.world.user_dict.clone(), asis_user.iter().filter(|x| x.to_lowercase() != w.to_lowercase()).cloned().collect(), w.to_string())),
+                    Op::AddFile(d, w) => Some((sess.file_dict_path(*d), asis_file[*d].iter().filter(|x| x.to_lowercase() != w.to_lowercase()).cloned().collect(), w.to_string())),
                     _ => None,
                 };
                 sess.send(&op);
@@ -135,7 +141,9 @@ fn run_history(seq: &[HOp], crash: bool) -> Result<Outcome, String> {
                     for (name, img) in images {
                         out.crash_points += 1;
                         let rec = recover(&mut sess, &scratch, &img)?;
-                        let mut upper = ack.clone();
+                        // may still hold an earlier spelling that differs from the word in flight only by case
+                        let mut upper: BTreeSet<String> = asis_user.iter().chain(asis_file.iter().flatten()).cloned().collect();
+                        upper.extend(ack.iter().cloned());
                         upper.insert(inflight.clone());
                         let lost: Vec<&String> = ack.iter().filter(|w| !rec.contains(*w)).collect();
                         let invented: Vec<&String> = rec.iter().filter(|w| !upper.contains(*w)).collect();
@@ -157,29 +165,57 @@ fn run_history(seq: &[HOp], crash: bool) -> Result<Outcome, String> {
                 }
             }
         }
+        // as-is model of finding F13: a dictionary keeps ONE spelling per lower-cased word, the
+        // later addition replacing the earlier one
+        match h {
+            HOp::AddUser(_, w) => {
+                asis_user.retain(|x: &String| x.to_lowercase() != w.to_lowercase());
+                asis_user.insert(w.to_string());
+            }
+            HOp::AddFile(d, w) => {
+                asis_file[*d].retain(|x: &String| x.to_lowercase() != w.to_lowercase());
+                asis_file[*d].insert(w.to_string());
+            }
+            _ => {}
+        }
         // after every step: files on disk reload to exactly the words added so far
         let udp = sess.world.user_dict.clone();
         let user = read_dict(&mut sess, &udp)?;
         if user != sess.client.user_words {
-            out.viols.push(Violation { sig: "user-dictionary-file-differs-from-words-added".into(), case: describe(&seq[..=si]), detail: json!({"file": user, "added": sess.client.user_words}) });
+            if user == asis_user {
+                out.viols.push(Violation { sig: "F13-case-colliding-words-in-server-dictionary".into(), case: describe(&seq[..=si]), detail: json!({"file": user, "added": sess.client.user_words}) });
+            } else {
+                out.viols.push(Violation { sig: "user-dictionary-file-differs-from-words-added".into(), case: describe(&seq[..=si]), detail: json!({"file": user, "added": sess.client.user_words}) });
+            }
         }
         for d in 0..2 {
             let p = sess.file_dict_path(d);
             let f = read_dict(&mut sess, &p)?;
             if f != sess.client.file_words[d] {
-                out.viols.push(Violation { sig: "file-dictionary-differs-from-words-added".into(), case: describe(&seq[..=si]), detail: json!({"document": sess.client.docs[d].name, "file": f, "added": sess.client.file_words[d]}) });
+                if f == asis_file[d] {
+                    out.viols.push(Violation { sig: "F13-case-colliding-words-in-server-dictionary".into(), case: describe(&seq[..=si]), detail: json!({"document": sess.client.docs[d].name, "file": f, "added": sess.client.file_words[d]}) });
+                } else {
+                    out.viols.push(Violation { sig: "file-dictionary-differs-from-words-added".into(), case: describe(&seq[..=si]), detail: json!({"document": sess.client.docs[d].name, "file": f, "added": sess.client.file_words[d]}) });
+                }
             }
         }
         // diagnostics of every open document == reference (added words accepted; a file word only in its file)
         for (d, detail) in sess.check_spec() {
             let kind = format!("{h:?}");
             let kind: String = kind.chars().take_while(|c| c.is_alphabetic()).collect();
-            let _ = d;
-            if out.viols.len() < 8 {
+            // does the as-is dictionary (finding F13) explain what was published?
+            let doc = &sess.client.docs[d];
+            let mut w = asis_user.clone();
+            w.extend(asis_file[d].iter().cloned());
+            let asis = crate::c09::ref_diag(&doc.text, doc.lang, &w, sess.client.config);
+            let got = sess.server.last_diagnostics(&sess.uri(d)).map(|v| crate::c09::norm_diag(&v));
+            if w != sess.words_for(d) && got.as_ref() == Some(&asis) {
+                out.viols.push(Violation { sig: "F13-case-colliding-words-in-server-dictionary".into(), case: describe(&seq[..=si]), detail });
+            } else if out.viols.len() < 8 {
                 out.viols.push(Violation { sig: format!("diagnostics-wrong-after-{kind}"), case: describe(&seq[..=si]), detail });
             }
         }
-        if !out.viols.is_empty() {
+        if out.viols.iter().any(|v| !v.sig.starts_with("F13")) {
             break;
         }
     }
